@@ -806,5 +806,19 @@ func c18ReaderNext(r *eng.Run) {
 	if oa.Err != io.EOF {
 		r.FailProp("C04", "valid_stream_error", "valid stream ended with %v", oa.Err)
 	}
+	if cfg.OnCont {
+		// The continuation handler is configuration: the second and every
+		// later message meet it like the first.
+		CheckConts(r, cfg, oa, s, len(s.Wire))
+		n := 0
+		for _, f := range s.Frames {
+			if f.Op == ref.OpCont {
+				n++
+			}
+		}
+		if len(oa.Conts) != n {
+			r.Failf("reset_differs_from_new", "Reader over %d messages: OnContinuation was called %d times for %d continuation frames (a new Reader calls it for each)", len(s.Items), len(oa.Conts), n)
+		}
+	}
 	_ = model
 }
